@@ -1235,6 +1235,31 @@ fn main() {
                 }
             }
         }
+        // linked_list op:arg ... : the operations (push:i / push_front:i add element 100 + i; pop; pop_front; remove:k removes the k-th
+        // listed node) on a real LinkedList<u64>, next to a VecDeque as reference
+        "linked_list" => {
+            let mut ops: Vec<(u8, u64)> = vec![];
+            let mut reference: std::collections::VecDeque<u64> = Default::default();
+            for t in &a[1..] {
+                let (name, arg) = t.split_once(':').unwrap();
+                let arg: u64 = arg.parse().unwrap();
+                match name {
+                    "push" => { ops.push((0, 100 + arg)); reference.push_back(100 + arg); }
+                    "push_front" => { ops.push((1, 100 + arg)); reference.push_front(100 + arg); }
+                    "pop" => { ops.push((2, 0)); reference.pop_back(); }
+                    "pop_front" => { ops.push((3, 0)); reference.pop_front(); }
+                    _ => { ops.push((4, arg)); reference.remove(arg as usize); }
+                }
+            }
+            let (order, len, head, tail) = v::linked_list_scenario(&ops);
+            let r: Vec<u64> = reference.iter().cloned().collect();
+            println!("order={}", join(&order));
+            println!("expected={}", join(&r));
+            println!("len={}", len);
+            println!("expected_len={}", r.len());
+            println!("ends={:?}/{:?}", head, tail);
+            println!("expected_ends={:?}/{:?}", r.first(), r.last());
+        }
         // compaction_outputs : a compaction opens three output files in a row; which table numbers are protected afterwards?
         "compaction_outputs" => {
             let mut o = raindb::DbOptions::with_memory_env();
